@@ -32,7 +32,7 @@ def sh(cmd, cwd=None, env=None, timeout=900):
 def job(name):
     from sa.selftest import analyse
     from sa.model import AnalysisError
-    deep = name in ('C05a', 'C06b', 'C06e', 'C06f', 'C06i', 'C06j') or os.environ.get('VERIF_META_DEEP')
+    deep = name in ('C05a', 'C05j', 'C06b', 'C06e', 'C06f', 'C06i', 'C06j') or os.environ.get('VERIF_META_DEEP')
     os.environ['VERIF_BOUNDED_DEPTH'] = '3' if deep else '2'
     os.environ['VERIF_BOUNDED_COMBS'] = '' if deep else '0'
     os.environ['VERIF_INNER_JOBS'] = '2'
